@@ -210,6 +210,9 @@ class ChannelRec:
     id_at_create: Optional[int] = None
 
 
+SPECIAL_VALUES = [b"\x00", b"\x00\x00", b"\x00" * 1200, b"\xff", b" ", b"\x03\x00\x00\x00", b"\x02", b"\x00" * 1201]
+
+
 def make_value(ch: int, side: int, n: int, kind: str, length: int, fill: int) -> Any:
     if length <= 0:
         return "" if kind == "str" else b""
@@ -563,6 +566,10 @@ class Session:
                 self.skipped_sends += 1
                 return
             value = make_value(rec.idx, side, len(rec.sent[side]), op.get("kind", "bytes"), op.get("len", 1), op.get("fill", 0))
+            if isinstance(op.get("special"), int):
+                # payloads that look like protocol artefacts: a lone NUL (what an empty message is carried as), ...
+                value = SPECIAL_VALUES[op["special"] % len(SPECIAL_VALUES)]
+                value = value if op.get("kind") != "str" else value.decode("latin-1")
             rec.sent[side].append(value)
             try:
                 ch.send(value)
